@@ -20,24 +20,42 @@ deriving Repr
 section
 variable (H : Data → Digest) (Hc : Str → Str)
 
+/-- `NonFungibleTokenPacketData.Unmarshal` on payload bytes. The two transfer applications'
+    packet data share one protobuf layout (fields 1–7: class, id, uri / data, sender, receiver,
+    away_from_origin, dest_contract; the multi-token amount is field 8 and unknown fields are
+    skipped), so multi-token packet bytes decode as NFT packet data and vice versa. -/
+def decodeNft : Data → Option NftData
+  | .nft d => some d
+  | .mt d => some { cls := d.cls, id := d.id, uri := d.data, sender := d.sender, receiver := d.receiver,
+                    away := d.away, destContract := d.destContract }
+  | _ => none
+
+/-- `MultiTokenPacketData.Unmarshal` on payload bytes (an NFT packet carries no field 8:
+    amount 0) -/
+def decodeMt : Data → Option MtData
+  | .mt d => some d
+  | .nft d => some { cls := d.cls, id := d.id, data := d.uri, sender := d.sender, receiver := d.receiver,
+                     away := d.away, destContract := d.destContract, amount := 0 }
+  | _ => none
+
 /-- result of an application's `OnRecvPacket`: `.error` aborts the transaction, `.ok ack`
     is the acknowledgement to write -/
 def appOnRecv (s : Apps) (p : Packet) (errText : String) : Apps × Except Err Data :=
   if p.port == mockPort then (s, .ok (.raw "6d6f636b2061636b6e6f776c656467656d656e74"))  -- hex("mock acknowledgement")
   else if p.port == nftPort then
-    match p.data with
-    | .nft d =>
+    match decodeNft p.data with
+    | some d =>
       match nftOnRecv Hc s p d with
       | (s, .ok) => (s, .ok (.ackOk "01"))
       | (s, .err _) => (s, .ok (.ackErr errText))
-    | _ => (s, .error .unknownRequest)
+    | none => (s, .error .unknownRequest)
   else if p.port == mtPort then
-    match p.data with
-    | .mt d =>
+    match decodeMt p.data with
+    | some d =>
       match mtOnRecv Hc s p d with
       | (s, .ok) => (s, .ok (.ackOk "01"))
       | (s, .err _) => (s, .ok (.ackErr errText))
-    | _ => (s, .error .unknownRequest)
+    | none => (s, .error .unknownRequest)
   else (s, .error .invalidRoute)
 
 /-- is a port routed (`Router.GetRoute`) -/
@@ -48,13 +66,13 @@ def appOnAck (s : Apps) (p : Packet) (ack : Data) : Apps × Res :=
   if p.port == mockPort then (s, .ok)
   else if p.port == nftPort then
     match ack with
-    | .ackOk _ => (match p.data with | .nft _ => (s, .ok) | _ => (s, .err .unknownRequest))
-    | .ackErr _ => (match p.data with | .nft d => nftRefund Hc s d | _ => (s, .err .unknownRequest))
+    | .ackOk _ => (match decodeNft p.data with | some _ => (s, .ok) | none => (s, .err .unknownRequest))
+    | .ackErr _ => (match decodeNft p.data with | some d => nftRefund Hc s d | none => (s, .err .unknownRequest))
     | _ => (s, .err .unknownRequest)
   else if p.port == mtPort then
     match ack with
-    | .ackOk _ => (match p.data with | .mt _ => (s, .ok) | _ => (s, .err .unknownRequest))
-    | .ackErr _ => (match p.data with | .mt d => mtRefund Hc s d | _ => (s, .err .unknownRequest))
+    | .ackOk _ => (match decodeMt p.data with | some _ => (s, .ok) | none => (s, .err .unknownRequest))
+    | .ackErr _ => (match decodeMt p.data with | some d => mtRefund Hc s d | none => (s, .err .unknownRequest))
     | _ => (s, .err .unknownRequest)
   else (s, .err .invalidRoute)
 
